@@ -475,4 +475,614 @@ theorem mem_filterMap_getElem? {α : Type} {fs : List α} {o : List Nat} {a : α
   obtain ⟨i, _, hi⟩ := h
   exact List.mem_of_getElem? hi
 
+/-! ## kinds of lines -/
+
+def headerOf (l : TLine) : Option (Nat × Bool) :=
+  match l.kind with
+  | .header i m => some (i, m)
+  | _ => none
+def frameOf (l : TLine) : Option Nat :=
+  match l.kind with
+  | .frame i => some i
+  | _ => none
+def loadedOf (l : TLine) : Option Nat :=
+  match l.kind with
+  | .loaded i => some i
+  | _ => none
+def unloadedOf (l : TLine) : Option Nat :=
+  match l.kind with
+  | .unloaded i => some i
+  | _ => none
+
+/-- every line of the list is a plain line -/
+def AllPlain (ls : List TLine) : Prop := ∀ l ∈ ls, l.kind = .plain
+
+theorem AllPlain.nil : AllPlain [] := fun _ h => by simp at h
+theorem AllPlain.append {a b : List TLine} (ha : AllPlain a) (hb : AllPlain b) : AllPlain (a ++ b) := by
+  intro l hl
+  rcases List.mem_append.mp hl with h | h
+  · exact ha l h
+  · exact hb l h
+theorem AllPlain.cons {l : TLine} {ls : List TLine} (h : l.kind = .plain) (hs : AllPlain ls) : AllPlain (l :: ls) := by
+  intro x hx
+  rcases List.mem_cons.mp hx with rfl | h'
+  · exact h
+  · exact hs x h'
+theorem AllPlain.map_plc (cs : List (List Char)) : AllPlain (cs.map plc) := by
+  intro l hl
+  simp only [List.mem_map] at hl
+  obtain ⟨c, _, rfl⟩ := hl
+  rfl
+
+theorem AllPlain.filterMap_eq_nil {β : Type} {ls : List TLine} (h : AllPlain ls) (f : TLine → Option β)
+    (hf : ∀ l, l.kind = .plain → f l = none) : ls.filterMap f = [] := by
+  rw [List.filterMap_eq_nil_iff]
+  exact fun l hl => hf l (h l hl)
+
+theorem headerOf_plain (l : TLine) (h : l.kind = .plain) : headerOf l = none := by simp [headerOf, h]
+theorem frameOf_plain (l : TLine) (h : l.kind = .plain) : frameOf l = none := by simp [frameOf, h]
+theorem loadedOf_plain (l : TLine) (h : l.kind = .plain) : loadedOf l = none := by simp [loadedOf, h]
+theorem unloadedOf_plain (l : TLine) (h : l.kind = .plain) : unloadedOf l = none := by simp [unloadedOf, h]
+
+theorem optLine_plain (label : String) (o : Option String) : AllPlain (optLine label o) := by
+  cases o <;> simp [optLine, AllPlain, plc]
+theorem optLine0x_plain (label : String) (o : Option Nat) : AllPlain (optLine0x label o) := by
+  cases o <;> simp [optLine0x, AllPlain, plc]
+
+theorem sysLines_plain (s : StateModel) : AllPlain (sysLines s) := by
+  unfold sysLines
+  cases s.sys.osVer <;> cases s.sys.cpuInfo <;> cases s.lsb <;> simp [AllPlain, plc]
+
+theorem memAccessLines_plain (pw : PW) : ∀ (n : Nat) (l : List MemAccess), AllPlain (memAccessLines pw n l)
+  | _, [] => AllPlain.nil
+  | n, a :: rest => by
+    have ih := memAccessLines_plain pw (n + 1) rest
+    unfold memAccessLines
+    refine AllPlain.append (AllPlain.append (AllPlain.append (AllPlain.append ?_ ?_) ?_) ?_) ih
+    · simp [AllPlain, plc]
+    · cases a.size <;> simp [AllPlain, plc, pl]
+    · split <;> simp [AllPlain, guardLine, pl]
+    · split <;> simp [AllPlain, plc]
+
+theorem flipLines_plain (pw : PW) : ∀ (n : Nat) (l : List (BitFlip × FlipX)), AllPlain (flipLines pw n l)
+  | _, [] => AllPlain.nil
+  | n, (b, x) :: rest => by
+    unfold flipLines
+    exact AllPlain.cons rfl (flipLines_plain pw (n + 1) rest)
+
+theorem crashLines_plain (pw : PW) (e : ExcInfo) (x : TextExtra) : AllPlain (crashLines pw e x) := by
+  unfold crashLines
+  refine AllPlain.append (AllPlain.append (AllPlain.append (AllPlain.append (AllPlain.append (AllPlain.append ?_ ?_) ?_) ?_) ?_) ?_) ?_
+  · simp [AllPlain, plc]
+  · split <;> simp [AllPlain, plc]
+  · split <;> simp [AllPlain, plc]
+  · split
+    · simp [AllPlain, pl]
+    · exact AllPlain.cons rfl (memAccessLines_plain pw 0 _)
+    · exact AllPlain.nil
+  · split
+    · refine AllPlain.append (by simp [AllPlain, plc, pl]) ?_
+      split <;> simp [AllPlain, guardLine, pl]
+    · simp [AllPlain, pl]
+    · exact AllPlain.nil
+  · split
+    · exact AllPlain.nil
+    · exact AllPlain.cons rfl (flipLines_plain pw 0 _)
+  · split
+    · exact AllPlain.nil
+    · refine AllPlain.cons rfl ?_
+      intro l hl
+      simp only [List.mem_map] at hl
+      obtain ⟨i, _, rfl⟩ := hl
+      rfl
+
+theorem macRecordLines_plain : ∀ (n : Nat) (l : List MacRecord), AllPlain (macRecordLines n l)
+  | _, [] => AllPlain.nil
+  | n, r :: rest => by
+    unfold macRecordLines
+    refine AllPlain.append (AllPlain.append (AllPlain.append (AllPlain.append (AllPlain.append (AllPlain.append
+      (AllPlain.append (AllPlain.append (AllPlain.append ?_ ?_) ?_) ?_) ?_) ?_) ?_) ?_) ?_) (macRecordLines_plain (n + 1) rest)
+    · simp [AllPlain, plc]
+    all_goals first | exact optLine_plain _ _ | exact optLine0x_plain _ _
+
+theorem miscLines_plain (s : StateModel) (x : TextExtra) : AllPlain (miscLines s x) := by
+  unfold miscLines
+  refine AllPlain.append (AllPlain.append (AllPlain.append (AllPlain.append (AllPlain.append (optLine_plain _ _) ?_) ?_) ?_) ?_) ?_
+  · split
+    · exact AllPlain.cons rfl (AllPlain.append (macRecordLines_plain 0 _) (by simp [AllPlain, plc]))
+    · exact AllPlain.nil
+  · split <;> simp [AllPlain, plc]
+  · split <;> simp [AllPlain, plc, pl]
+  · simp [AllPlain, plc]
+  · split <;> simp [AllPlain, plc]
+
+theorem argLines_plain (pb : Nat) : ∀ (n : Nat) (l : List (String × Option Nat)), AllPlain (argLines pb n l)
+  | _, [] => AllPlain.nil
+  | n, (nm, v) :: rest => by
+    unfold argLines
+    exact AllPlain.cons rfl (argLines_plain pb (n + 1) rest)
+
+theorem argsLines_plain (x : FrameX) : AllPlain (argsLines x) := by
+  unfold argsLines
+  split
+  · exact AllPlain.nil
+  · exact AllPlain.cons rfl (AllPlain.append (argLines_plain _ 0 _) (by simp [AllPlain, plc]))
+
+theorem regLines_plain (c : RegCtx) : AllPlain (regLines c) := AllPlain.map_plc _
+
+theorem streamLines_plain (x : TextExtra) : AllPlain (streamLines x) := by
+  unfold streamLines
+  refine AllPlain.append ?_ ?_ <;> split <;> first
+    | exact AllPlain.nil
+    | (refine AllPlain.cons rfl (AllPlain.cons rfl ?_)
+       intro l hl
+       simp only [List.mem_map] at hl
+       obtain ⟨i, _, rfl⟩ := hl
+       rfl)
+
+theorem softLines_plain (s : StateModel) : AllPlain (softLines s) := by
+  unfold softLines
+  split <;> simp [AllPlain, plc, pl]
+
+/-- the brief report: plain summary lines, then the requesting thread's block -/
+theorem briefLines_shape (pw : PW) (s : StateModel) (x : TextExtra) (hd : List TLine)
+    (h : briefLines pw s x = .ok hd) :
+    ∃ pre req, hd = pre ++ req ∧ AllPlain pre ∧ requestingLines s x = .ok req := by
+  simp only [briefLines] at h
+  obtain ⟨req, hreq, h⟩ := obind_ok h
+  cases h
+  refine ⟨_, req, rfl, ?_, hreq⟩
+  refine AllPlain.append (AllPlain.append (sysLines_plain s) ?_) (miscLines_plain s x)
+  split
+  · exact crashLines_plain _ _ _
+  · simp [AllPlain, pl]
+
+/-! ## the numbered lines of a call stack -/
+
+/-- a call-stack block consists of plain lines and numbered frame lines -/
+def StackKinds (ls : List TLine) : Prop := ∀ l ∈ ls, l.kind = .plain ∨ ∃ i, l.kind = .frame i
+
+theorem StackKinds.of_plain {ls : List TLine} (h : AllPlain ls) : StackKinds ls := fun l hl => Or.inl (h l hl)
+theorem StackKinds.append {a b : List TLine} (ha : StackKinds a) (hb : StackKinds b) : StackKinds (a ++ b) := by
+  intro l hl
+  rcases List.mem_append.mp hl with h | h
+  · exact ha l h
+  · exact hb l h
+theorem StackKinds.filterMap_eq_nil {β : Type} {ls : List TLine} (h : StackKinds ls) (f : TLine → Option β)
+    (hp : ∀ l, l.kind = .plain → f l = none) (hf : ∀ l i, l.kind = .frame i → f l = none) :
+    ls.filterMap f = [] := by
+  rw [List.filterMap_eq_nil_iff]
+  intro l hl
+  rcases h l hl with h1 | ⟨i, h1⟩
+  · exact hp l h1
+  · exact hf l i h1
+
+theorem headerOf_frame (l : TLine) (i : Nat) (h : l.kind = .frame i) : headerOf l = none := by simp [headerOf, h]
+theorem loadedOf_frame (l : TLine) (i : Nat) (h : l.kind = .frame i) : loadedOf l = none := by simp [loadedOf, h]
+theorem unloadedOf_frame (l : TLine) (i : Nat) (h : l.kind = .frame i) : unloadedOf l = none := by simp [unloadedOf, h]
+
+theorem plain_frames {ls : List TLine} (h : AllPlain ls) : ls.filterMap frameOf = [] :=
+  h.filterMap_eq_nil frameOf frameOf_plain
+
+theorem inlineLines_frames (f : FrameM) : ∀ (n : Nat) (is : List InlineM),
+    (inlineLines f n is).filterMap frameOf = List.range' n is.length
+  | _, [] => rfl
+  | n, i :: rest => by
+    simp only [inlineLines, List.length_cons, List.range'_succ]
+    rw [List.filterMap_cons, List.filterMap_cons]
+    simp only [frameOf, inlineLine, pl]
+    rw [inlineLines_frames f (n + 1) rest]
+
+theorem inlineLines_kinds (f : FrameM) : ∀ (n : Nat) (is : List InlineM), StackKinds (inlineLines f n is)
+  | _, [] => fun _ h => by simp [inlineLines] at h
+  | n, i :: rest => by
+    intro l hl
+    simp only [inlineLines, List.mem_cons] at hl
+    rcases hl with rfl | rfl | h
+    · exact Or.inr ⟨n, rfl⟩
+    · exact Or.inl rfl
+    · exact inlineLines_kinds f (n + 1) rest l h
+
+/-- numbered lines a list of frames produces: one per frame and one per inline frame -/
+def frameLineCount (fs : List FrameM) : Nat := (fs.map fun f => f.inlines.length + 1).sum
+
+theorem framesLines_frames : ∀ (n : Nat) (ps : List (FrameM × FrameX)) (ls : List TLine),
+    framesLines n ps = .ok ls →
+      ls.filterMap frameOf = List.range' n (frameLineCount (ps.map (·.1))) ∧ StackKinds ls
+  | n, [], ls, h => by
+    simp only [framesLines] at h
+    cases h
+    exact ⟨rfl, fun _ h => by simp at h⟩
+  | n, (f, x) :: rest, ls, h => by
+    simp only [framesLines] at h
+    obtain ⟨body, _, h⟩ := obind_ok h
+    obtain ⟨more, hmore, h⟩ := obind_ok h
+    cases h
+    obtain ⟨ih1, ih2⟩ := framesLines_frames (n + f.inlines.length + 1) rest more hmore
+    constructor
+    · simp only [List.filterMap_append, inlineLines_frames, plain_frames (regLines_plain _),
+        plain_frames (argsLines_plain _), ih1, List.filterMap_cons, List.filterMap_nil, frameOf, plc,
+        List.map_cons, frameLineCount, List.sum_cons, List.append_nil]
+      have e1 : List.range' n f.inlines.length ++ [n + f.inlines.length] = List.range' n (f.inlines.length + 1) := by
+        have := List.range'_append (s := n) (m := f.inlines.length) (n := 1) (step := 1)
+        simpa using this
+      rw [e1]
+      simp [Nat.add_assoc]
+    · refine StackKinds.append (StackKinds.append (StackKinds.append (StackKinds.append (StackKinds.append
+        (inlineLines_kinds f n f.inlines) ?_) (StackKinds.of_plain (regLines_plain _))) ?_)
+        (StackKinds.of_plain (argsLines_plain _))) ih2
+      · intro l hl
+        simp only [List.mem_singleton] at hl
+        subst hl
+        exact Or.inr ⟨_, rfl⟩
+      · exact StackKinds.of_plain (by simp [AllPlain, plc])
+
+theorem stackLines_frames (t : ThreadM) (x : ThreadX) (ls : List TLine) (h : stackLines t x = .ok ls) :
+    ls.filterMap frameOf = List.range (frameLineCount t.frames) ∧ StackKinds ls := by
+  simp only [stackLines] at h
+  obtain ⟨fl, hfl, h⟩ := obind_ok h
+  cases h
+  obtain ⟨h1, h2⟩ := framesLines_frames 0 _ fl hfl
+  rw [zipD_map_fst] at h1
+  have hp : AllPlain (if t.frames.isEmpty then [pl "<no frames>"] else []) := by
+    split <;> simp [AllPlain, pl]
+  exact ⟨by rw [List.filterMap_append, plain_frames hp, h1, List.nil_append, List.range_eq_range'],
+    StackKinds.append (StackKinds.of_plain hp) h2⟩
+
+/-! ## thread headers and module lines -/
+
+/-- is this thread printed by the loop over all threads? (not the requesting one, not the dump writer) -/
+def otherSel (req : Option Nat) (p : (ThreadM × ThreadX) × Nat) : Bool :=
+  !(decide (req = some p.2) || p.1.2.skipped)
+
+theorem stackLines_noheader {t : ThreadM} {x : ThreadX} {ls : List TLine} (h : stackLines t x = .ok ls) :
+    ls.filterMap headerOf = [] ∧ ls.filterMap loadedOf = [] ∧ ls.filterMap unloadedOf = [] := by
+  have hk := (stackLines_frames t x ls h).2
+  exact ⟨hk.filterMap_eq_nil _ headerOf_plain headerOf_frame, hk.filterMap_eq_nil _ loadedOf_plain loadedOf_frame,
+    hk.filterMap_eq_nil _ unloadedOf_plain unloadedOf_frame⟩
+
+theorem otherThreadsLines_headers (req : Option Nat) :
+    ∀ (i : Nat) (ps : List (ThreadM × ThreadX)) (ls : List TLine), otherThreadsLines req i ps = .ok ls →
+      ls.filterMap headerOf = ((ps.zipIdx i).filter (otherSel req)).map (fun p => (p.2, false)) ∧
+      ls.filterMap loadedOf = [] ∧ ls.filterMap unloadedOf = []
+  | _, [], ls, h => by
+    simp only [otherThreadsLines] at h
+    cases h
+    exact ⟨rfl, rfl, rfl⟩
+  | i, (t, x) :: rest, ls, h => by
+    simp only [otherThreadsLines] at h
+    split at h
+    · rename_i hc
+      have ih := otherThreadsLines_headers req (i + 1) rest ls h
+      have hs : otherSel req ((t, x), i) = false := by
+        simp only [otherSel, Bool.not_eq_false', Bool.or_eq_true, decide_eq_true_eq]
+        exact hc
+      simp only [List.zipIdx_cons, List.filter_cons, hs]
+      exact ih
+    · rename_i hc
+      obtain ⟨sl, hsl, h⟩ := obind_ok h
+      obtain ⟨more, hmore, h⟩ := obind_ok h
+      cases h
+      obtain ⟨ih1, ih2, ih3⟩ := otherThreadsLines_headers req (i + 1) rest more hmore
+      obtain ⟨s1, s2, s3⟩ := stackLines_noheader hsl
+      have hs : otherSel req ((t, x), i) = true := by
+        simp only [otherSel, Bool.not_eq_true', Bool.or_eq_false_iff, decide_eq_false_iff_not]
+        simp only [not_or, Bool.not_eq_true] at hc
+        exact hc
+      simp only [List.zipIdx_cons, List.filter_cons, hs, List.filterMap_cons, List.filterMap_append, headerOf,
+        loadedOf, unloadedOf, s1, s2, s3, ih1, ih2, ih3, List.map_cons, List.nil_append, if_true]
+      exact ⟨trivial, trivial, trivial⟩
+
+theorem moduleLines_kinds (s : StateModel) : ∀ (is : List Nat) (ls : List TLine), moduleLines s is = .ok ls →
+    ls.map (·.kind) = is.map Kind.loaded
+  | [], ls, h => by simp only [moduleLines] at h; cases h; rfl
+  | i :: rest, ls, h => by
+    simp only [moduleLines] at h
+    split at h
+    · cases h
+    · obtain ⟨l, hl, h⟩ := obind_ok h
+      obtain ⟨more, hmore, h⟩ := obind_ok h
+      cases h
+      simp only [moduleLine] at hl
+      obtain ⟨r, _, hl⟩ := obind_ok hl
+      cases hl
+      simp only [List.map_cons, moduleLines_kinds s rest more hmore]
+
+theorem unloadedLines_kinds (s : StateModel) : ∀ (is : List Nat) (ls : List TLine), unloadedLines s is = .ok ls →
+    ls.map (·.kind) = is.map Kind.unloaded
+  | [], ls, h => by simp only [unloadedLines] at h; cases h; rfl
+  | i :: rest, ls, h => by
+    simp only [unloadedLines] at h
+    split at h
+    · cases h
+    · obtain ⟨l, hl, h⟩ := obind_ok h
+      obtain ⟨more, hmore, h⟩ := obind_ok h
+      cases h
+      simp only [unloadedLine] at hl
+      obtain ⟨r, _, hl⟩ := obind_ok hl
+      cases hl
+      simp only [List.map_cons, unloadedLines_kinds s rest more hmore]
+
+/-- extraction through the kinds of the lines -/
+theorem filterMap_of_kinds {β : Type} (g : Kind → Option β) (f : TLine → Option β) (hf : ∀ l, f l = g l.kind)
+    (ls : List TLine) : ls.filterMap f = (ls.map (·.kind)).filterMap g := by
+  induction ls with
+  | nil => rfl
+  | cons l rest ih => simp only [List.filterMap_cons, List.map_cons, hf, ih]
+
+def kHeader : Kind → Option (Nat × Bool)
+  | .header i m => some (i, m)
+  | _ => none
+def kLoaded : Kind → Option Nat
+  | .loaded i => some i
+  | _ => none
+def kUnloaded : Kind → Option Nat
+  | .unloaded i => some i
+  | _ => none
+
+theorem headerOf_kind (l : TLine) : headerOf l = kHeader l.kind := by
+  unfold headerOf kHeader; cases l.kind <;> rfl
+theorem loadedOf_kind (l : TLine) : loadedOf l = kLoaded l.kind := by
+  unfold loadedOf kLoaded; cases l.kind <;> rfl
+theorem unloadedOf_kind (l : TLine) : unloadedOf l = kUnloaded l.kind := by
+  unfold unloadedOf kUnloaded; cases l.kind <;> rfl
+
+theorem loaded_kinds (is : List Nat) :
+    (is.map Kind.loaded).filterMap kLoaded = is ∧ (is.map Kind.loaded).filterMap kUnloaded = [] ∧
+    (is.map Kind.loaded).filterMap kHeader = [] := by
+  induction is with
+  | nil => exact ⟨rfl, rfl, rfl⟩
+  | cons i rest ih => simp [kLoaded, kUnloaded, kHeader, ih.1]
+
+theorem unloaded_kinds (is : List Nat) :
+    (is.map Kind.unloaded).filterMap kUnloaded = is ∧ (is.map Kind.unloaded).filterMap kLoaded = [] ∧
+    (is.map Kind.unloaded).filterMap kHeader = [] := by
+  induction is with
+  | nil => exact ⟨rfl, rfl, rfl⟩
+  | cons i rest ih => simp [kLoaded, kUnloaded, kHeader, ih.1]
+
+/-- the text of every header the loop over all threads writes -/
+theorem otherThreadsLines_header_text (req : Option Nat) :
+    ∀ (i : Nat) (ps : List (ThreadM × ThreadX)) (ls : List TLine), otherThreadsLines req i ps = .ok ls →
+      ∀ l ∈ ls, ∀ k m, l.kind = .header k m →
+        m = false ∧ ∃ p, (ps.zipIdx i)[k - i]? = some (p, k) ∧ i ≤ k ∧ l.text = headerText k p.1 none
+  | _, [], ls, h => by
+    simp only [otherThreadsLines] at h
+    cases h
+    intro l hl; simp at hl
+  | i, (t, x) :: rest, ls, h => by
+    simp only [otherThreadsLines] at h
+    have shift : ∀ (more : List TLine), otherThreadsLines req (i + 1) rest = .ok more →
+        ∀ l ∈ more, ∀ k m, l.kind = .header k m →
+          m = false ∧ ∃ p, (((t, x) :: rest).zipIdx i)[k - i]? = some (p, k) ∧ i ≤ k ∧ l.text = headerText k p.1 none := by
+      intro more hmore l hl k m hk
+      obtain ⟨hm, p, hp, hik, htx⟩ := otherThreadsLines_header_text req (i + 1) rest more hmore l hl k m hk
+      refine ⟨hm, p, ?_, by omega, htx⟩
+      have : k - i = (k - (i + 1)) + 1 := by omega
+      rw [List.zipIdx_cons, this, List.getElem?_cons_succ]
+      exact hp
+    split at h
+    · exact shift ls h
+    · obtain ⟨sl, hsl, h⟩ := obind_ok h
+      obtain ⟨more, hmore, h⟩ := obind_ok h
+      cases h
+      intro l hl k m hk
+      rcases List.mem_cons.mp hl with rfl | hl'
+      · simp only [Kind.header.injEq] at hk
+        obtain ⟨rfl, rfl⟩ := hk
+        exact ⟨rfl, (t, x), by simp [List.zipIdx_cons], Nat.le_refl _, rfl⟩
+      · rcases List.mem_append.mp hl' with h1 | h1
+        · have := (stackLines_frames t x sl hsl).2 l h1
+          rcases this with h2 | ⟨j, h2⟩ <;> rw [h2] at hk <;> cases hk
+        · exact shift more hmore l h1 k m hk
+
+/-! ## `by_addr()` of the module lists (on top of C08) -/
+
+open RangeMap in
+/-- when all values are distinct `keep` never merges: every kept entry is an input entry -/
+theorem keep_mem_of_nodup : ∀ (o : Option Entry) (xs : List Entry),
+    ((o.toList ++ xs).map (·.2)).Nodup → ∀ e ∈ keep o xs, e ∈ o.toList ++ xs
+  | none, [], _, e, he => by simp [keep] at he
+  | some l, [], _, e, he => by simp [keep] at he; simp [he]
+  | none, x :: rest, nd, e, he => by
+    simp only [keep] at he
+    exact keep_mem_of_nodup (some x) rest (by simpa using nd) e he
+  | some (lr, lv), x :: rest, nd, e, he => by
+    simp only [keep] at he
+    have nd' : lv ≠ x.2 ∧ (((lr, lv) :: rest).map (·.2)).Nodup ∧ ((x :: rest).map (·.2)).Nodup := by
+      simp only [Option.toList_some, List.singleton_append, List.map_cons, List.nodup_cons, List.mem_cons,
+        not_or] at nd ⊢
+      exact ⟨nd.1.1, ⟨nd.1.2, nd.2.2⟩, nd.2⟩
+    split at he
+    · have := keep_mem_of_nodup (some (lr, lv)) rest (by simpa using nd'.2.1) e he
+      simp only [Option.toList_some, List.singleton_append, List.mem_cons] at this ⊢
+      rcases this with h | h
+      · exact Or.inl h
+      · exact Or.inr (Or.inr h)
+    · split at he
+      · rename_i _ h2
+        exact absurd h2.2.symm nd'.1
+      · simp only [Option.toList_some, List.singleton_append, List.mem_cons] at he ⊢
+        rcases he with h | h
+        · exact Or.inl h
+        · have := keep_mem_of_nodup (some x) rest (by simpa using nd'.2.2) e h
+          simp only [Option.toList_some, List.singleton_append, List.mem_cons] at this
+          exact Or.inr this
+
+theorem validOnly_map_snd_sublist (l : List (Option RangeMap.Rng × RangeMap.Val)) :
+    ((RangeMap.validOnly l).map (·.2)).Sublist (l.map (·.2)) := by
+  induction l with
+  | nil => exact List.Sublist.slnil
+  | cons x rest ih =>
+    obtain ⟨o, v⟩ := x
+    cases o with
+    | none => simpa [RangeMap.validOnly] using ih.cons v
+    | some r => simpa [RangeMap.validOnly] using ih.cons_cons v
+
+open RangeMap in
+/-- with pairwise distinct values, every entry of the table is an input entry (range unchanged) -/
+theorem safeVec_mem_of_nodup (xs : List (Option Rng × Val)) (nd : (xs.map (·.2)).Nodup) :
+    ∀ e ∈ safeVec xs, (some e.1, e.2) ∈ xs := by
+  intro e he
+  have nd1 : ((sortOpt xs).map (·.2)).Nodup :=
+    (((List.mergeSort_perm xs _).map (·.2)).nodup_iff).mpr nd
+  have nd2 : ((validOnly (sortOpt xs)).map (·.2)).Nodup := (validOnly_map_snd_sublist _).nodup nd1
+  have hm := keep_mem_of_nodup none (validOnly (sortOpt xs)) (by simpa using nd2) e he
+  simp only [Option.toList_none, List.nil_append, validOnly, List.mem_filterMap, Option.map_eq_some_iff] at hm
+  obtain ⟨x, hx, r, hr, rfl⟩ := hm
+  have hx' : x ∈ xs := List.mem_mergeSort.mp hx
+  obtain ⟨o, v⟩ := x
+  simp only at hr
+  subst hr
+  exact hx'
+
+theorem modEntries_values (ms : List ModuleM) : (modEntries ms).map (·.2) = List.range ms.length := by
+  have : (modEntries ms).map (·.2) = (ms.zipIdx).map Prod.snd := by
+    simp only [modEntries, List.map_map]
+    apply List.map_congr_left
+    intro ⟨m, i⟩ _
+    rfl
+  rw [this, List.zipIdx_map_snd, List.range_eq_range']
+
+theorem modEntries_getElem? (ms : List ModuleM) (i : Nat) :
+    (modEntries ms)[i]? = (ms[i]?).map fun m => (RangeMap.mkRange m.base m.size, i) := by
+  simp only [modEntries, List.getElem?_map, List.getElem?_zipIdx, Nat.zero_add, Option.map_map]
+  rfl
+
+/-- the module a listed position stands for, and its exact range -/
+theorem modulesByAddr_entry {ms : List ModuleM} {e : RangeMap.Entry}
+    (he : e ∈ RangeMap.safeVec (modEntries ms)) :
+    ∃ m, ms[e.2]? = some m ∧ RangeMap.mkRange m.base m.size = some e.1 := by
+  have nd : ((modEntries ms).map (·.2)).Nodup := by rw [modEntries_values]; exact List.nodup_range
+  obtain ⟨m, hm, ho⟩ := mem_modEntries (safeVec_mem_of_nodup _ nd e he)
+  exact ⟨m, hm, ho.symm⟩
+
+/-- **address order**: the listed modules are strictly ascending and pairwise disjoint -/
+theorem modulesByAddr_sorted (ms : List ModuleM) :
+    (modulesByAddr ms).Pairwise fun i j =>
+      ∃ mi mj, ms[i]? = some mi ∧ ms[j]? = some mj ∧ 0 < mi.size ∧ mi.base + mi.size ≤ mj.base := by
+  rw [modulesByAddr_eq, List.pairwise_map]
+  have hp := RangeMap.safeVec_sorted_disjoint (modEntries ms) (modEntries_wf ms)
+  refine List.Pairwise.imp_of_mem ?_ hp
+  intro a b ha hb hab
+  obtain ⟨ma, hma, hra⟩ := modulesByAddr_entry ha
+  obtain ⟨mb, hmb, hrb⟩ := modulesByAddr_entry hb
+  have wa := RangeMap.mkRange_wf hra
+  have wb := RangeMap.mkRange_wf hrb
+  refine ⟨ma, mb, hma, hmb, ?_, ?_⟩ <;> omega
+
+theorem modulesByAddr_nodup (ms : List ModuleM) : (modulesByAddr ms).Nodup := by
+  refine (modulesByAddr_sorted ms).imp ?_
+  intro i j ⟨mi, mj, hi, hj, hs, hle⟩ hij
+  subst hij
+  rw [hi] at hj
+  cases hj
+  omega
+
+/-- **completeness**: a module with a valid range that intersects no other module's range is listed -/
+theorem modulesByAddr_complete (ms : List ModuleM) (i : Nat) (m : ModuleM) (r : RangeMap.Rng)
+    (hm : ms[i]? = some m) (hr : RangeMap.mkRange m.base m.size = some r)
+    (hiso : ∀ j m' r', j ≠ i → ms[j]? = some m' → RangeMap.mkRange m'.base m'.size = some r' →
+      r.intersects r' = false) :
+    i ∈ modulesByAddr ms := by
+  have hi : i < (modEntries ms).length := by
+    have := (List.getElem?_eq_some_iff.mp hm).1
+    simpa [modEntries] using this
+  have hx : (modEntries ms)[i]? = some (some r, i) := by rw [modEntries_getElem?, hm, ← hr]; rfl
+  have hsplit : modEntries ms = (modEntries ms).take i ++ (some r, i) :: (modEntries ms).drop (i + 1) := by
+    have h1 := (List.take_append_drop i (modEntries ms)).symm
+    have h2 : (modEntries ms).drop i = (some r, i) :: (modEntries ms).drop (i + 1) := by
+      rw [List.drop_eq_getElem_cons hi]
+      congr 1
+      have := List.getElem?_eq_some_iff.mp hx
+      exact this.2
+    rw [h2] at h1
+    exact h1
+  have hwf := modEntries_wf ms
+  have hiso' : ∀ e ∈ (modEntries ms).take i ++ (modEntries ms).drop (i + 1), ∀ s, e.1 = some s →
+      r.intersects s = false := by
+    intro e he s hs
+    have : ∃ j, j ≠ i ∧ (modEntries ms)[j]? = some e := by
+      rcases List.mem_append.mp he with h | h
+      · obtain ⟨k, hk⟩ := List.mem_iff_getElem?.mp h
+        rw [List.getElem?_take] at hk
+        split at hk
+        · exact ⟨k, by omega, hk⟩
+        · cases hk
+      · obtain ⟨k, hk⟩ := List.mem_iff_getElem?.mp h
+        rw [List.getElem?_drop] at hk
+        exact ⟨i + 1 + k, by omega, hk⟩
+    obtain ⟨j, hj, hje⟩ := this
+    rw [modEntries_getElem?] at hje
+    cases hmj : ms[j]? with
+    | none => rw [hmj] at hje; cases hje
+    | some m' =>
+      rw [hmj] at hje
+      simp only [Option.map_some, Option.some.injEq] at hje
+      subst hje
+      exact hiso j m' s hj hmj hs
+  have hrw := RangeMap.mkRange_wf hr
+  have hget := RangeMap.get_complete ((modEntries ms).take i) ((modEntries ms).drop (i + 1)) r i r.lo
+    (hsplit ▸ hwf) hiso' ⟨Nat.le_refl _, hrw.1⟩
+  rw [← hsplit] at hget
+  obtain ⟨e, he, _, hv⟩ := RangeMap.get_sound_mem _ _ _ hget
+  rw [modulesByAddr_eq, List.mem_map]
+  exact ⟨e, he, hv⟩
+
+/-- the unloaded list: exactly the modules with a valid range, each once -/
+theorem mem_unloadedByAddr_iff (ms : List UnloadedM) (i : Nat) :
+    i ∈ unloadedByAddr ms ↔ ∃ m r, ms[i]? = some m ∧ RangeMap.mkRange m.base m.size = some r := by
+  constructor
+  · exact mem_unloadedByAddr
+  · rintro ⟨m, r, hm, hr⟩
+    rw [unloadedByAddr_eq, List.mem_map]
+    refine ⟨(r, i), List.mem_mergeSort.mpr ?_, rfl⟩
+    simp only [RangeMap.validOnly, List.mem_filterMap, Option.map_eq_some_iff]
+    refine ⟨(some r, i), ?_, r, rfl, rfl⟩
+    simp only [unlEntries, List.mem_map]
+    refine ⟨(some r, i), List.mem_zipIdx_iff_getElem?.mpr ?_, rfl⟩
+    simp only [List.getElem?_map, hm, Option.map_some, hr]
+
+theorem unlEntries_values (ms : List UnloadedM) : (unlEntries ms).map (·.2) = List.range ms.length := by
+  have : (unlEntries ms).map (·.2) = ((ms.map fun m => RangeMap.mkRange m.base m.size).zipIdx).map Prod.snd := by
+    simp only [unlEntries, List.map_map]
+    apply List.map_congr_left
+    intro ⟨m, i⟩ _
+    rfl
+  rw [this, List.zipIdx_map_snd, List.range_eq_range', List.length_map]
+
+theorem unloadedByAddr_nodup (ms : List UnloadedM) : (unloadedByAddr ms).Nodup := by
+  rw [unloadedByAddr_eq]
+  have h1 : ((RangeMap.validOnly (unlEntries ms)).map (·.2)).Nodup :=
+    (validOnly_map_snd_sublist _).nodup (by rw [unlEntries_values]; exact List.nodup_range)
+  exact (((List.mergeSort_perm (RangeMap.validOnly (unlEntries ms)) _).map (fun e : RangeMap.Entry => e.2)).nodup_iff).mpr h1
+
+/-- … in `(base, end)` order (C08 `unloaded_sorted`) -/
+theorem unloadedByAddr_sorted (ms : List UnloadedM) :
+    (unloadedByAddr ms).Pairwise fun i j =>
+      ∃ mi mj ri rj, ms[i]? = some mi ∧ ms[j]? = some mj ∧ RangeMap.mkRange mi.base mi.size = some ri ∧
+        RangeMap.mkRange mj.base mj.size = some rj ∧ RangeMap.rle ri rj = true := by
+  rw [unloadedByAddr_eq, List.pairwise_map]
+  have hp : (RangeMap.sortEntries (RangeMap.validOnly (unlEntries ms))).Pairwise
+      (fun x y => RangeMap.rle x.1 y.1 = true) :=
+    RangeMap.unloaded_sorted (ms.map fun (m : UnloadedM) => RangeMap.mkRange m.base m.size)
+  refine List.Pairwise.imp_of_mem ?_ hp
+  intro a b ha hb hab
+  have key : ∀ e ∈ RangeMap.sortEntries (RangeMap.validOnly (unlEntries ms)),
+      ∃ m, ms[e.2]? = some m ∧ RangeMap.mkRange m.base m.size = some e.1 := by
+    intro e he
+    have he' : e ∈ RangeMap.validOnly (unlEntries ms) := List.mem_mergeSort.mp he
+    simp only [RangeMap.validOnly, List.mem_filterMap, Option.map_eq_some_iff] at he'
+    obtain ⟨x, hx, r, hr, rfl⟩ := he'
+    simp only [unlEntries, List.mem_map] at hx
+    obtain ⟨⟨o, j⟩, hmem, rfl⟩ := hx
+    have hj := List.mem_zipIdx_iff_getElem?.mp hmem
+    simp only [List.getElem?_map, Option.map_eq_some_iff] at hj
+    obtain ⟨m, hm, ho⟩ := hj
+    simp only at hr
+    exact ⟨m, hm, by rw [ho, hr]⟩
+  obtain ⟨ma, hma, hra⟩ := key a ha
+  obtain ⟨mb, hmb, hrb⟩ := key b hb
+  exact ⟨ma, mb, a.1, b.1, hma, hmb, hra, hrb, hab⟩
+
 end MdModel.Text
